@@ -6,6 +6,7 @@ import InvProxy.Model.Seeker
 import InvProxy.Model.Dedup
 import InvProxy.Model.Inject
 import InvProxy.Model.ShimUrl
+import InvProxy.Model.WsCodec
 open InvProxy Driver
 
 /-- suite `backoff`: `target <n>` ↦ un-jittered target in ns;  `loop <pattern of 0/1>` ↦ retry counts slept with -/
@@ -143,11 +144,81 @@ def shimurlStep (_ : Unit) : List String → Unit × String
     | .wrapped => ((), "wrapped")
   | _ => ((), "bad-op")
 
+/-- suite `wscodec`: `ser t|b <hex>` (server→client serialisation) | `dec <shape> [<hex>]` (client→server decoding) -/
+def showDecoded : WsCodec.Decoded → String
+  | .msg (.text d) => "text " ++ hexOf d
+  | .msg (.binary d) => "binary " ++ hexOf d
+  | .skip => "skip"
+  | .error => "error"
+
+def wscodecStep (_ : Unit) : List String → Unit × String
+  | ["ser", k, h] =>
+    let m : WsCodec.Msg := if k == "t" then .text (unhexD h) else .binary (unhexD h)
+    match WsCodec.serialize m with
+    | .str s => ((), "str " ++ hexOf s)
+    | .arr [.str s] => ((), "arr1 " ++ hexOf s)
+    | _ => ((), "other")
+  | ["dec", "str", h] => ((), showDecoded (WsCodec.decodeClient (.str (unhexD h))))
+  | ["dec", "arr1", h] => ((), showDecoded (WsCodec.decodeClient (.arr [.str (unhexD h)])))
+  | ["dec", "num"] => ((), showDecoded (WsCodec.decodeClient (.num [53])))
+  | ["dec", "obj"] => ((), showDecoded (WsCodec.decodeClient (.obj [([97], .num [49])])))
+  | ["dec", "arr0"] => ((), showDecoded (WsCodec.decodeClient (.arr [])))
+  | ["dec", "arr2"] => ((), showDecoded (WsCodec.decodeClient (.arr [.str [81,81,61,61], .str [81,81,61,61]])))
+  | ["dec", "arrnum"] => ((), showDecoded (WsCodec.decodeClient (.arr [.num [53]])))
+  | _ => ((), "bad-op")
+
+/-- token form of JSON values shared with the Go driver -/
+partial def parseJ : List String → Option (WsCodec.J × List String)
+  | "n" :: t => some (.null, t)
+  | "t" :: t => some (.bool true, t)
+  | "f" :: t => some (.bool false, t)
+  | "[" :: t => parseArr t []
+  | "{" :: t => parseObj t []
+  | tok :: t =>
+    if tok.startsWith "#" then some (.num (unhexD (String.ofList (tok.toList.drop 1))), t)
+    else if tok.startsWith "s" then some (.str (unhexD (String.ofList (tok.toList.drop 1))), t)
+    else none
+  | [] => none
+where
+  parseArr : List String → List WsCodec.J → Option (WsCodec.J × List String)
+    | "]" :: t, acc => some (.arr acc.reverse, t)
+    | ts, acc => match parseJ ts with | some (v, t) => parseArr t (v :: acc) | none => none
+  parseObj : List String → List (Bytes × WsCodec.J) → Option (WsCodec.J × List String)
+    | "}" :: t, acc => some (.obj acc.reverse, t)
+    | k :: ts, acc => match parseJ ts with | some (v, t) => parseObj t ((unhexD k, v) :: acc) | none => none
+    | [], _ => none
+
+def insertKV (x : Bytes × WsCodec.J) : List (Bytes × WsCodec.J) → List (Bytes × WsCodec.J)
+  | [] => [x]
+  | y :: t => if bytesLt x.1 y.1 then x :: y :: t else y :: insertKV x t
+
+partial def showJ : WsCodec.J → String
+  | .null => "n" | .bool true => "t" | .bool false => "f"
+  | .num r => "#" ++ hexOf r | .str s => "s" ++ hexOf s
+  | .arr xs => " ".intercalate (["["] ++ xs.map showJ ++ ["]"])
+  | .obj fs =>
+    let sorted := fs.foldl (fun acc x => insertKV x acc) []
+    " ".intercalate (["{"] ++ (sorted.map fun (k, v) => hexOf k ++ " " ++ showJ v) ++ ["}"])
+
+/-- suite `wsinject`: `inject <k=v,…> <tokens…>` ↦ the (possibly unchanged) JSON value the backend receives -/
+def wsinjectStep (_ : Unit) : List String → Unit × String
+  | "inject" :: hs :: toks =>
+    let pairs : List (Bytes × Bytes) := if hs == "" then [] else (hs.splitOn ",").filterMap fun kv =>
+      match kv.splitOn "=" with | [k, v] => some (unhexD k, unhexD v) | _ => none
+    match parseJ toks with
+    | some (v, _) => match WsCodec.inject pairs v with
+      | some v' => ((), showJ v')
+      | none => ((), showJ v)
+    | none => ((), "parse-error")
+  | _ => ((), "bad-op")
+
 def main (args : List String) : IO UInt32 := do
   let stdin ← IO.getStdin
   let stdout ← IO.getStdout
   match args with
   | ["backoff"] => loop stdin stdout backoffStep (); return 0
+  | ["wscodec"] => loop stdin stdout wscodecStep (); return 0
+  | ["wsinject"] => loop stdin stdout wsinjectStep (); return 0
   | ["shimurl"] => loop stdin stdout shimurlStep (); return 0
   | ["identity"] => loop stdin stdout identityStep (); return 0
   | ["banner"] => loop stdin stdout bannerStep (); return 0
